@@ -240,7 +240,8 @@ def stepDrv (st : St) (line impl : String) : St × String × String :=
           | .ok o => s!"{head} ok {o.loc} {o.phys} {o.max} {o.delThrough} {o.deleted} {boolStr o.more} rows={rowsStr}"
         -- judge on the implementation's output
         let (cs', verdict) : CState × String :=
-          match impl.splitOn " rows=" with
+          match (if impl = "noop" then ["noop"] else impl.splitOn " rows=") with
+          | ["noop"] => (cs, "ok")      -- the implementation trimmed nothing in this op (state divergence shows as a disagreement)
           | [ihead, irows] =>
             match parseRanges irows with
             | none => (cs, if irows.startsWith "err:" then "ok" else "viol:unparseable-output")
